@@ -56,7 +56,7 @@ impl Prop for C02 {
         "exploration"
     }
     fn rule(&self) -> String {
-        "complete enumeration: suites x (n,t) x id kinds (u16 extremes, hash-derived and arbitrary scalars as opaque values) x dealer/DKG x EVERY signer subset x the message alphabet (empty, 1 byte, hash-block boundaries of SHA-256 / SHA-512 / SHAKE256, 1000 bytes; every message on the smallest shape, every shape with rotating messages); per session a transcript of inputs (shares, the 64 random bytes per signer, message) and of every intermediate the library exposes (nonces, commitments, encoded commitment list and its order, binding-factor inputs, binding factors, group commitment, challenge, interpolation coefficients, shares, signature) is recomputed byte for byte by a from-scratch Python implementation of RFC 9591 / BIP-340 that is pinned, in the same run, to all RFC 9591 appendix vectors; ALL 65535 u16 identifier encodings; single-signer signatures both ways. Non-trivial = transcript compared".into()
+        "complete enumeration: suites x (n,t) x id kinds (u16 extremes, hash-derived and arbitrary scalars as opaque values) x dealer/DKG x EVERY signer subset x the message alphabet (empty, 1 byte, hash-block boundaries of SHA-256 / SHA-512 / SHAKE256, 1000 bytes; every message on the smallest shape, every shape with rotating messages); per session a transcript of inputs (shares, the 64 random bytes per signer, message) and of every intermediate the library exposes (nonces, commitments, encoded commitment list and its order, binding-factor inputs, binding factors, group commitment, challenge, interpolation coefficients, shares, signature) is recomputed byte for byte by a from-scratch Python implementation of RFC 9591 / BIP-340 that is pinned, in the same run, to all RFC 9591 appendix vectors; ALL 65535 u16 identifier encodings; single-signer signatures both ways; messages of 417 / 513 / 5 000 / 70 000 bytes; one wide session (40-100 signers with identifiers above 255); Identifier order against the independently computed numeric order at every bit position. Non-trivial = transcript compared".into()
     }
     fn assumptions(&self) -> Vec<String> {
         vec![
